@@ -20,7 +20,7 @@ OUT_OF_SCOPE = VG.C09_EXCLUDED | {"maybe_receiver", "nested_alias_param", "digit
 
 def in_scope(name):
     kind, steps = name.split("__")
-    if kind != "int":
+    if kind not in ("int", "jsint"):
         return False
     return not any(x in steps.split("-") for x in OUT_OF_SCOPE)
 
